@@ -215,7 +215,7 @@ def check_case(case):
       if not quantized[s['q']]:
         continue
       from vq import kfpred
-      if kfpred.unsafe_findings({'model': mspec, 'recipe': cur_recipe[s['q']]}):
+      if engine.must_not_execute({'model': mspec, 'recipe': cur_recipe[s['q']]}, bytes(qt._result.quantized_model)):  # pylint: disable=protected-access
         labels.append('validate_excluded:runtime_ub_finding')
         continue
       test = {sg['sig']: engine.calibration_data(mspec, si, [s['seed']]) for si, sg in enumerate(mspec['subgraphs'])}
